@@ -426,3 +426,16 @@ def run(ctx):  # noqa: F811
     refusal_rule(ctx, "R13.10", [OPS + x for x in ("scaling_operator", "diagonal_operator", "sum_operator", "sandwich_operator", "block_diagonal_operator",
                                                    "sampling_enabler", "inversion_enabler", "operator_adapter", "linear_operator", "endomorphic_operator")],
                  "the covariance operators ('operators that cannot represent a covariance refuse to sample')", floor=6)
+
+
+_run_c13h = run
+
+
+def run(ctx):  # noqa: F811
+    _run_c13h(ctx)
+    from .defassign import defassign_rule
+    defassign_rule(ctx, "R13.11", [("nifty.cl.multi_field", "MultiField.from_random"), ("nifty.cl.field", "Field.from_random"),
+                                   (OPS + "scaling_operator", "ScalingOperator.draw_sample"), (OPS + "diagonal_operator", "DiagonalOperator.draw_sample"),
+                                   (OPS + "block_diagonal_operator", "BlockDiagonalOperator.draw_sample"), (OPS + "sum_operator", "SumOperator.draw_sample"),
+                                   (OPS + "sampling_enabler", "SamplingEnabler.special_draw_sample")],
+                   "the white-noise generators behind draw_sample (int and per-key dict forms of dtype / device_id)", floor=5)
